@@ -195,6 +195,7 @@ func (e *env) send(b backend, mm *gostatsd.MetricMap, wit []byte) (ok bool) {
 	e.r.Event("callbacks", 1)
 	if st.errs.Load() > 0 {
 		e.r.Event("callbacks_with_errors", 1)
+		e.r.Event("callback_errors:"+b.variant, 1)
 	}
 	return true
 }
